@@ -39,6 +39,18 @@ theorem C17_code_lookup_refines_map (key : P → K) (ops : List (Op P V)) (h : H
       = specRun key h.view ops (key p) := by
   rw [← C17_tie_get_array, get_eq_view, view_run]
 
+/-- **tie**: the model uses ONE key function for reads, writes and deletions; the current source of
+    `InMemoryStorage.get`, `put` and `delete` touches the dictionary under the same key in all three, that key is the
+    normalised period for a dated store and does not depend on the period for an eternal one -/
+theorem C17_tie_storage_keys {K : Type} (norm : K → K) (eternity : K) (eternal : Bool) (p q : K) :
+    Engine.memory_storage_key_get norm eternity eternal p = Engine.memory_storage_key_put norm eternity eternal p ∧
+    Engine.memory_storage_key_delete norm eternity eternal p = Engine.memory_storage_key_put norm eternity eternal p ∧
+    (eternal = false → Engine.memory_storage_key_put norm eternity eternal p = norm p) ∧
+    (eternal = true → Engine.memory_storage_key_put norm eternity eternal p =
+        Engine.memory_storage_key_put norm eternity eternal q) := by
+  unfold Engine.memory_storage_key_get Engine.memory_storage_key_put Engine.memory_storage_key_delete
+  cases eternal <;> simp
+
 /-- the code's lookup on concrete contents: memory wins, the disk answers only when memory is silent and a disk
     store exists -/
 example : Engine.holder_get_array (some 1) (some 2) true = some 1 ∧ Engine.holder_get_array none (some 2) true = some 2 ∧
